@@ -80,7 +80,7 @@ class OneLineValue(pfbase.CfgCase):
         if self.native:
             text = pfbase.native_pformat(self.value, w, rw)
         else:
-            text = pfbase.stream_text(pfbase.sdocs(self.value, w, rw, False))
+            text = pfbase.ptext(self.value, w, rw)
         if text != self.ref:
             return self.fail('C06:fits-on-one-line-but-broken',
                              lambda: 'value=%s L=%d w=%r rw=%r\noutput:\n%s' % (self.src, self.L, w, rw, text))
